@@ -175,7 +175,10 @@ def run(ctx, rep):
 
     # ---------------- writers + non-interference ----------------
     writers = []
-    for f in F.fns.values():
+    for f0 in F.fns.values():
+        # private same-file constructor helpers are spliced into their callers, so that the root a caller hands to
+        # such a helper is judged in the caller, where its provenance is visible
+        f = F.inlined(f0) if f0.kind in ("Fn", "AssocFn") else f0
         for b in f.rpo():
             for s in f.blocks[b]["s"]:
                 if s[0] == "=" and s[2].get("k") == "agg" and s[2].get("agg") == "adt" and s[2]["adt"] in (
@@ -243,6 +246,8 @@ def run(ctx, rep):
                               "the source node's cmr field" % (show(t), sorted(roots)), where)
             else:
                 rep.ok("C09.copy", "Node::convert", show(t))
+        elif _passthrough(F, f, t):
+            rep.ok("C09.writers", "%s (private helper storing the root its caller computed; callers judged with it spliced in)" % short(f.path), None)
         else:
             rep.violation("C09.writers", "UNREVIEWED:" + f.path, "function builds a %s; not a reviewed constructor — "
                           "review it and add it to the rule" % short(rv["adt"]), where)
@@ -453,6 +458,29 @@ def printer(F, rep):
                                       "%s's field %s — re-parsing the text gives a program with a different commitment root"
                                       % (v, show(t)[:80], v, fld), cs.where())
     rep.floor("C09.print", n, 2)
+
+
+REVIEWED_WRITERS = ("simplicity::node::Node::<N>::from_parts", "simplicity::node::Node::<N>::convert")
+
+
+def _passthrough(F, f, t, _depth=0):
+    """f is a private helper that stores, as the root, a value its caller passed in unchanged; every caller is a reviewed
+    writer (a Constructible method, from_parts, convert) or such a helper itself, and could splice it in"""
+    if not (isinstance(t, tuple) and t and t[0] == "param") or f.vis == "pub" or f.impl_trait or _depth > 3:
+        return False
+    callers = F.callers_of(f.path)
+    if not callers:
+        return False
+    for c in callers:
+        g = F.fns.get(c) if isinstance(c, str) else c
+        if g is None:
+            return False
+        if g.impl_trait in vcc.CONSTRUCTIBLE_TRAITS and g.name in vcc.VARIANT_OF or g.path in REVIEWED_WRITERS:
+            if F.inlinable(g, f.path) is None:
+                return False
+            continue
+        return False
+    return True
 
 
 def _collect_items(rv, used):
